@@ -435,7 +435,7 @@ type jStart struct {
 	cont *tree.Cont // content for root/container/row
 }
 
-func rowsTerm(s *tree.SNode, l *tree.List) string {
+func c15RowsTerm(s *tree.SNode, l *tree.List) string {
 	items := make([]string, len(l.Rows))
 	for i, row := range l.Rows {
 		items[i] = emit.App("DCont", row.ContentTerm(s))
@@ -495,7 +495,7 @@ func collectStarts(out *[]jStart, sel *node.Selection, s *tree.SNode, c *tree.Co
 				return fmt.Errorf("c15: cannot select list %s: %v", kp, err)
 			}
 			*out = append(*out, jStart{kind: "list", path: kp, sel: lsel, s: kid, size: len(l.Rows),
-				term: emit.App("StList", emit.Bool(top), pmod, kid.Term(), rowsTerm(kid, l))})
+				term: emit.App("StList", emit.Bool(top), pmod, kid.Term(), c15RowsTerm(kid, l))})
 			item, err := lsel.First()
 			for i := 0; err == nil && item.Selection != nil && i < len(l.Rows); i++ {
 				rp := fmt.Sprintf("%s[%d]", kp, i)
